@@ -151,3 +151,41 @@ pub proof fn lemma_area_with_canonical(ps: Seq<Subpacket>, bodies: Seq<Seq<u8>>)
         assert(bodies[ps.len() - 1] == sp_data_wire(ps[ps.len() - 1].data));
     }
 }
+
+// ---- the length a subpacket area announces (what the count octets in front of it are computed from) ----------
+/// Subpacket::write_len(): the value of the length field plus the octets of the length field itself
+pub open spec fn sp_announced(p: Subpacket) -> nat { splen_n(p.len) + splen_w(p.len) as nat }
+pub open spec fn area_announced(ps: Seq<Subpacket>) -> nat
+    decreases ps.len()
+{
+    if ps.len() == 0 { 0 } else { area_announced(ps.drop_last()) + sp_announced(ps.last()) }
+}
+/// a subpacket whose length field is well formed and announces exactly 1 (type octet) + the octets of its body
+pub open spec fn sp_len_ok(p: Subpacket) -> bool {
+    splen_wf(p.len) && splen_n(p.len) == 1 + sp_data_wire(p.data).len()
+}
+pub proof fn lemma_sp_announced(p: Subpacket)
+    requires sp_len_ok(p)
+    ensures sp_announced(p) == sp_wire(p).len()
+{
+    lemma_splen_enc_len(splen_w(p.len), splen_n(p.len));
+}
+/// C05: if every subpacket's length field is right, the announced area length is the number of octets of the area
+pub proof fn lemma_area_announced(ps: Seq<Subpacket>)
+    requires forall|k: int| 0 <= k < ps.len() ==> sp_len_ok(#[trigger] ps[k])
+    ensures area_announced(ps) == area_wire(ps).len()
+    decreases ps.len()
+{
+    if ps.len() > 0 {
+        assert forall|k: int| 0 <= k < ps.drop_last().len() implies sp_len_ok(#[trigger] ps.drop_last()[k]) by { assert(ps.drop_last()[k] == ps[k]); }
+        lemma_area_announced(ps.drop_last());
+        assert(sp_len_ok(ps[ps.len() - 1]));
+        lemma_sp_announced(ps.last());
+    }
+}
+pub proof fn lemma_area_take(ps: Seq<Subpacket>, k: int)
+    requires 0 <= k < ps.len()
+    ensures area_wire(ps.take(k + 1)) == area_wire(ps.take(k)) + sp_wire(ps[k])
+{
+    assert(ps.take(k + 1).drop_last() =~= ps.take(k));
+}
